@@ -149,7 +149,7 @@ def r2(cx):
     cx.check("seq_num" in o.field_names(), "Drop for Snapshot unregisters self.seq_num", "drop-unregister", un[0].where())
     # every construction of a Snapshot value is preceded by register(seq) with the same seq
     n = 0
-    for body in f.bodies.values():
+    for body in f.scan_bodies():
         for i, j, lhs, rv, line in body.assigns():
             if rv[0] == "agg" and rv[3] and rv[3].get("adt") == "snapshot::Snapshot":
                 n += 1
